@@ -26,7 +26,10 @@ pub fn boundary_u64(r: &mut Rng) -> u64 {
 
 fn gen_addr(r: &mut Rng) -> SocketAddr {
     let port = *r.pick(&[0u16, 1, 5000, 40000, 65535]);
-    if r.chance(3, 4) {
+    if r.chance(1, 8) {
+        // an IPv4-mapped IPv6 address: 16 bytes on the wire, not to be confused with the IPv4 address it maps
+        SocketAddr::new(IpAddr::V6(Ipv4Addr::new(127, 0, 0, r.range(1, 9) as u8).to_ipv6_mapped()), port)
+    } else if r.chance(3, 4) {
         SocketAddr::new(IpAddr::V4(Ipv4Addr::new(127, 0, 0, r.range(1, 9) as u8)), port)
     } else {
         let mut ip = [0u8; 16];
